@@ -8,16 +8,23 @@ def harness():
     return vlib.build('h_comp', [os.path.join(vlib.HARNESS, 'h_comp.cpp')])
 
 
-def run_comp(res, tier, seed, replay, mode, inputs, types='double', clause_filter=None, note=''):
+def run_comp(res, tier, seed, replay, mode, inputs, types='double', clause_filter=None, note='', extra_lines=None):
     wd = vlib.scratch(res.pid)
     try:
         exe = harness()
         if replay:
             obj = json.load(open(replay))
             ev = json.loads(obj['replay']['trace_segment'][0])
-            inputs = [({'n': ev['n'], 'edges': [tuple(e) for e in ev['edges']]}, ev.get('den', 1))]
-            types = ev.get('wt', 'double')
+            if ev.get('fam'):
+                inputs, replay_lines = [], [vlib.graph_line(900000, 0, [], 1, extra=['fam=%s' % ev['fam'], 'a=%d' % ev['a'], 'b=%d' % ev['b']])]
+            else:
+                inputs, replay_lines = [({'n': ev['n'], 'edges': [tuple(e) for e in ev['edges']]}, ev.get('den', 1))], []
+            types = ev.get('wt') or 'double'
         lines = [vlib.graph_line(i, g['n'], g['edges'], den) for i, (g, den) in enumerate(inputs)]
+        if extra_lines and not replay:
+            lines += extra_lines
+        if replay:
+            lines += replay_lines
         trace = vlib.parallel_record(exe, lines, wd, 'comp', extra=['--modes', mode, '--types', types])
         ev = vlib.count_events(trace)
         res.cov['event_counts'] = ev
@@ -38,6 +45,8 @@ def run_comp(res, tier, seed, replay, mode, inputs, types='double', clause_filte
             if not cl:
                 continue
             facts = {'event': call.get('e'), 'wt': call.get('wt'), 'clauses': cl, 'n': call.get('n'), 'edges': call.get('edges'), 'den': call.get('den')}
+            if call.get('fam'):
+                facts.update({'family': call['fam'], 'a': call.get('a'), 'b': call.get('b')})
             if call.get('ctx'):
                 facts['input_line'] = call['ctx']
             res.violation(facts, {'trace_segment': rj['segment'], 'spec': 'Trace_Comp'})
@@ -125,9 +134,17 @@ def check_C13(res, tier, seed, replay):
             for _ in range(2 if tier == 'quick' else 8):
                 g = gens.with_tree_components(rng, core, t)
                 inputs.append((g if rng.random() < 0.5 else gens.permuted(rng, g), 1))
-    run_comp(res, tier, seed, replay, 'fvs', inputs)
+    # degrees around 2^8 and 2^16 (a degree counter narrower than size_t wraps there): wheels and a hub over many triangles,
+    # described by parameters and decided by the closed form Components!FvsFamViol
+    fam = [('wheel', a, 0) for a in (254, 255, 256, 257, 65535, 65536, 65537)]
+    fam += [('hubtri', a, b) for a, b in ((127, 1), (128, 0), (128, 1), (32767, 1), (32768, 0), (32768, 1), (32768, 2), (65536, 0), (65536, 1))]
+    if tier != 'quick':
+        fam += [('wheel', a, 0) for a in (65534, 65538, 131071, 131072, 131073)] + [('hubtri', a, b) for a in (32766, 32767, 32768, 32769) for b in (0, 1, 2, 3)]
+    fl = [vlib.graph_line(900000 + i, 0, [], 1, extra=['fam=%s' % f, 'a=%d' % a, 'b=%d' % b]) for i, (f, a, b) in enumerate(fam)]
+    run_comp(res, tier, seed, replay, 'fvs', inputs, extra_lines=fl)
+    res.cov['large_degree_families'] = ['%s(%d,%d)' % f for f in fam]
     res.cov['distinct_nontrivial'] = len({canon(g) for g, _ in inputs if gens.csd(g) >= 1})
-    res.cov['rule'] = 'greedy_fvs on every input; non-trivial = distinct graph containing a cycle'
+    res.cov['rule'] = 'greedy_fvs on every input; non-trivial = distinct graph containing a cycle; plus wheels / hub-over-triangles with hub degree around 2^8 and 2^16'
 
 
 def tie_inputs(rng, tier, wd):
